@@ -397,6 +397,63 @@ def first_match_loop(fn: ast.FunctionDef, make_vocab) -> tuple[str, str]:
     return tr.boolean(test.test), test.body[0].value.attr, seq
 
 
+def formula_scan(fn: ast.FunctionDef, skip: list) -> str:
+    """`Variable.get_formula`: the top-level `if T: return None` guards that speak of `self.formulas` / `self.end`, then the
+    closing `for K in [reversed](self.formulas): if K <cmp> instant_str: return self.formulas[K]` / `return None`.
+    `l` = the SortedDict's items in ascending key order, `o` = the instant, `en` = the `end` attribute."""
+    body = [s for s in fn.body if not (isinstance(s, ast.Expr) and isinstance(s.value, ast.Constant))
+            and not (isinstance(s, ast.AnnAssign) and s.value is None)]
+    if len(body) < 2 or not isinstance(body[-2], ast.For) or not isinstance(body[-1], ast.Return):
+        raise NotTranslatable("does not end with `for … return` / `return`")
+    loop, last = body[-2], body[-1]
+    if not (last.value is None or (isinstance(last.value, ast.Constant) and last.value.value is None)):
+        raise NotTranslatable("the function does not end with `return None`")
+    def is_none_return(stmts: list) -> bool:
+        return len(stmts) == 1 and isinstance(stmts[0], ast.Return) and (
+            stmts[0].value is None or (isinstance(stmts[0].value, ast.Constant) and stmts[0].value.value is None))
+    guards = []
+    for s in body[:-2]:
+        src = ast.unparse(s)
+        if any(src.startswith(k) for k in skip):
+            continue
+        if not (isinstance(s, ast.If) and not s.orelse and is_none_return(s.body)):
+            raise NotTranslatable(f"unexpected statement `{src.splitlines()[0][:60]}`")
+        t = ast.unparse(s.test)
+        if t == "not self.formulas":
+            guards.append("l.isEmpty")
+        elif t == "self.end and instant.date > self.end":
+            guards.append("(match en with | some e => decide (o > e) | none => false)")
+        elif t == "self.end and instant.date >= self.end":
+            guards.append("(match en with | some e => decide (o ≥ e) | none => false)")
+        else:
+            raise NotTranslatable(f"unknown guard `{t[:60]}`")
+    it = ast.unparse(loop.iter)
+    if it == "reversed(self.formulas)":
+        seq = "l.reverse"
+    elif it == "self.formulas":
+        seq = "l"
+    else:
+        raise NotTranslatable(f"iterates over `{it[:40]}`")
+    if loop.orelse or not isinstance(loop.target, ast.Name) or len(loop.body) != 1 or not isinstance(loop.body[0], ast.If):
+        raise NotTranslatable("loop body is not one `if`")
+    k, test = loop.target.id, loop.body[0]
+    if test.orelse or len(test.body) != 1 or not isinstance(test.body[0], ast.Return) or ast.unparse(test.body[0].value) != f"self.formulas[{k}]":
+        raise NotTranslatable("the `if` does not return the formula of the loop key")
+    c = test.test
+    ops = {ast.LtE: "≤", ast.Lt: "<", ast.GtE: "≥", ast.Gt: ">", ast.Eq: "="}
+    if not (isinstance(c, ast.Compare) and len(c.ops) == 1 and type(c.ops[0]) in ops):
+        raise NotTranslatable("loop test is not one comparison")
+    side = {k: "f.1", "instant_str": "o"}
+    a, b = ast.unparse(c.left), ast.unparse(c.comparators[0])
+    if a not in side or b not in side or a == b:
+        raise NotTranslatable(f"loop test compares `{a}` and `{b}`")
+    scan = f"match {seq}.find? (fun f => decide ({side[a]} {ops[type(c.ops[0])]} {side[b]})) with\n  | some f => some f.2\n  | none => none"
+    out = ""
+    for g in guards:
+        out += f"  if {g} then none else\n"
+    return out + "  " + scan
+
+
 def located_test(fn: ast.FunctionDef, tr: Tr, marker: str) -> str:
     """the test of the one `if … : raise` whose source mentions `marker`, wherever it is nested in the function"""
     found = [n for n in ast.walk(fn) if isinstance(n, ast.If) and marker in ast.unparse(n.test) and not n.orelse
@@ -515,6 +572,11 @@ SPECS = [
          vocab={"variable": ("v", "varname"), "period": ("p", "pval"), "self.max_spiral_loops": ("msl", "nat")},
          params="{P : Type} [DecidableEq P] (below : List (Nat × P)) (v : Nat) (p : P) (msl : Nat)", typ="Nat",
          fallback="if (v, p) ∈ below then 1 else if msl ≤ (below.filter (fun k => k.1 = v)).length then 2 else 0"),
+    dict(name="variable_get_formula", module="GeneratedEngine", file="openfisca_core/variables/variable.py", cls="Variable",
+         func="get_formula", kind="formulascan",
+         skip=["if period is None:", "if isinstance(period, Period):", "if instant is None:", "instant_str = str(instant)"],
+         params="{F : Type} (l : List (Int × F)) (en : Option Int) (o : Int)", typ="Option F",
+         fallback="if l.isEmpty then none else\n  if (match en with | some e => decide (o > e) | none => false) then none else\n  match l.reverse.find? (fun f => decide (f.1 ≤ o)) with\n  | some f => some f.2\n  | none => none"),
     dict(name="period_text_finer_refused", file="openfisca_core/periods/helpers.py", cls=None, func="period", kind="located",
          marker="unit_weight(period.unit)", vocab={"period.unit": ("base", "unit"), "unit": ("u", "unit")},
          params="(u base : DUnit)", typ="Bool",
@@ -650,6 +712,11 @@ def translate(repo: str, module: str = "GeneratedGuards") -> tuple[str, dict]:
                 body = f"  match l.find? (fun e => {cond}) with\n  | some e => e.val\n  | none => none"
                 typ = sp["typ"]
                 doc = f"`{sp['cls']}.{sp['func']}` ({sp['file']}): first element of `values_list` passing the test, else None"
+            elif sp["kind"] == "formulascan":
+                body = formula_scan(fn, sp["skip"])
+                typ = sp["typ"]
+                doc = (f"`{sp['cls']}.{sp['func']}` ({sp['file']}): the `return None` guards on `self.formulas` / `self.end`, then the first-match "
+                       "scan of the SortedDict's keys; `l` = its items in ascending key order, `o` = the instant, `en` = the `end` attribute")
             elif sp["kind"] == "dispatch":
                 chain = dispatch_chain(fn, tr, sp["leaf"])
                 body = _dispatch_to_lean(chain)
